@@ -411,6 +411,23 @@ def leaf_contracts():
         returns="none", inline=INL + ["Matchable._value_one", "Matchable._child_one"], callee_variants={"ExpressionUtility.to_int": "as_a_function"},
         property_clauses={"none_stays_none": "C01", "the_integer_of_the_argument": "C01", "a_conversion_error_goes_to_the_expression_once": "C01,C05", "and_leaves_no_value": "C01"},
         class_fields=cfi, macros=MACROS, native=nat_i))
+    nat_f = {**NATIVE, "spec_funs": {**NATIVE["spec_funs"],
+             "to_float": "def fun(v):\n    m = importlib.import_module('csvpath.matching.util.expression_utility')\n    try:\n        return m.ExpressionUtility.to_float(v)\n    except ValueError:\n        return 0.0\n",
+             "to_float_fails": "def fun(v):\n    m = importlib.import_module('csvpath.matching.util.expression_utility')\n    try:\n        m.ExpressionUtility.to_float(v)\n    except ValueError:\n        return True\n    return False\n"}}
+    cs.append(Contract(target=f"{EU}::ExpressionUtility.to_float", interface=True, variant="as_a_function", types={"v": "val"},
+                       raises={"ValueError": {"when": "ufun_bool('to_float_fails', v)", "exact": True}}, ensures={"fn": "same(result, ufun_val('to_float', v))"}, returns="val", class_fields=cfi,
+                       assumptions=["ExpressionUtility.to_float(v) is a function of v only: a float, or ValueError (its text cases are bounded in C01.bounded)"]))
+    cs.append(Contract(
+        target=f"{FN}/math/intf.py::Float._produce_value",
+        types={"skip": "none", "self.children": "fixed[obj:Matchable]", "self.value": "val", "self.children.0.g_value": "scalar", "self.g_expression": "obj:Expression"},
+        requires=["self.value is None"], modifies=["self.value", "self.children.0.g_to_value_calls", "self.g_expression.g_handled"],
+        ensures={"none_stays_none": "implies(%s is None, self.value is None)" % v0,
+                 "the_float_of_the_argument": "implies(%s is not None and not ufun_bool('to_float_fails', %s), same(self.value, ufun_val('to_float', %s)))" % (v0, v0, v0),
+                 "a_conversion_error_goes_to_the_expression_once": "self.g_expression.g_handled == old(self.g_expression.g_handled) + (1 if (%s is not None and ufun_bool('to_float_fails', %s)) else 0)" % (v0, v0),
+                 "and_leaves_no_value": "implies(%s is not None and ufun_bool('to_float_fails', %s), self.value is None)" % (v0, v0)},
+        returns="none", inline=INL + ["Matchable._value_one", "Matchable._child_one"], callee_variants={"ExpressionUtility.to_float": "as_a_function"},
+        property_clauses={"none_stays_none": "C01", "the_float_of_the_argument": "C01", "a_conversion_error_goes_to_the_expression_once": "C01,C05", "and_leaves_no_value": "C01"},
+        class_fields=cfi, macros=MACROS, native=nat_f))
     # ---- exists(), empty(x)
     cs.append(Contract(target=f"{EU}::ExpressionUtility.is_empty", interface=True, types={"v": "val"}, ensures={"fn": "result == ufun_bool('is_empty', v)"}, returns="bool", class_fields=CF,
                        assumptions=["ExpressionUtility.is_empty(v) is a function of v only (None, 'None', 'nan', blank strings, empty containers: bounded in C01.bounded / C03.bounded)"]))
@@ -502,6 +519,6 @@ EXPLANATION = ("Proved for all inputs (chain CsvPath.next -> _consider_line -> M
                "once, in order, exactly when the per-line verdict holds; the verdict is the AND/OR of the component votes taken left to right; an Equality dispatches to "
                "assignment / when-do / equality test by its operator, once per line; '==' compares as written or as values; '->' runs its right side iff the left side matched; "
                "a function decides exactly once per line and an error below it is handed to the expression; a variable is an existence test (0 and '' exist); not/and/or/"
-               "yes/no/length, min_length/max_length, int(), firstline/firstscan/firstmatch, equals() on numbers and texts, between()/inside()/range()/from_to()/beyond()/outside() (bounds in either order, strict vs inclusive, a missing argument does not match; "
+               "yes/no/length, min_length/max_length, int(), float(), firstline/firstscan/firstmatch, equals() on numbers and texts, between()/inside()/range()/from_to()/beyond()/outside() (bounds in either order, strict vs inclusive, a missing argument does not match; "
                "numbers and stripped strings) and the strict and non-strict comparisons of AboveBelow are the documented operators -- with two known findings in AboveBelow (lt/below answer <=; "
                "cells compare as strings). Bounded (not proved): the end-to-end reference evaluation over generated programs and files.")
